@@ -82,6 +82,7 @@ package keystore
 //@   assert-at call allocAddrMgrNamespace stored-under-the-checked-passphrase: arg3 == newPrivPass && arg2 == oldPrivPass
 //@ func (*KeystoreManagerForPoC).NewKeystore
 //@   assert-at call safelyCheckPassword checks-the-passphrase-the-keystore-will-use: arg1 == privPassphrase
+//@   assert-at call useKeystore a-keystore-created-in-an-unlocked-wallet-is-unlocked-with-its-keys: arg1 == accountID && arg2 == privPassphrase && arg3
 //@ func (*KeystoreManagerForPoC).NewKeystore$1
 //@   assert-at call create stored-under-the-checked-passphrase: arg3 == privPassphrase
 
